@@ -117,7 +117,8 @@ def drivers(ctx: Ctx):
         flushed = [e for e in p.events if e.name == "flush" and not e.deferred]
         want_flush = any(flow.dump(a) == "flush_events" and pol is True for a, pol in p.facts())
         if want_flush:
-            ok = len(flushed) == 1 and flow.dump(flushed[0].call) == f"{acc}.u.apply_update({acc}).e.reporter.flush({acc}.u.apply_update({acc}))"
+            # the environment (and its reporter) does not change between steps: only the flushed payload matters
+            ok = len(flushed) == 1 and len(flushed[0].call.args) == 1 and flow.same(flushed[0].call.args[0], p.value)
             ctx.check(ok, "D3", "ORD.driver", "crank.run_step flushes the reporter with the updated payload after the update", rs, p.end,
                       why_bad=f"flush calls {[flow.dump(e.call)[:100] for e in flushed]}", construct="crank.run_step:flush")
     ctx.check(not any(isinstance(x, ast.Name) and x.id == idx for x in ast.walk(rs.node) if not isinstance(x, ast.arg)), "D3", "ORD.driver",
@@ -159,7 +160,7 @@ def drivers(ctx: Ctx):
             continue
         ok = flow.dump(p.value) == f"{pay}.u.apply_update({pay})"
         fl = [e for e in p.events if e.name == "flush" and not e.deferred]
-        ok2 = len(fl) == 1 and flow.dump(fl[0].call) == f"env.reporter.flush({pay}.u.apply_update({pay}))"
+        ok2 = len(fl) == 1 and len(fl[0].call.args) == 1 and flow.same(fl[0].call.args[0], p.value)
         ctx.check(ok and ok2, "D3", "ORD.driver", "_run_step: apply_update on the current payload, flush with the updated payload, return it (same sequence as crank)", inner, p.end,
                   why_bad=f"returns {flow.dump(p.value)[:100]}, flush {[flow.dump(e.call)[:80] for e in fl]}", construct="_run_step:shape")
     outer = repo.func(LSR, "_run_step_in_context")
